@@ -13,6 +13,12 @@ RULE = ('bounded family: every sequence of <= L server steps over a 17-token '
         'stays finished + termination within the step budget.  Non-trivial = '
         'got past Connecting; distinct = distinct (event-name sequence, '
         'faults fired) signatures')
+RULE += (' '
+         'hold / random families also draw: non-ASCII URL path, query, agent '
+         'and protocols; reads that fill the 64 KiB buffer exactly followed '
+         'by silence; connections through an HTTP proxy that answers 200 '
+         '(whole or in pieces), closes at once or mid-answer, answers 407 or '
+         'garbage, or stays silent.')
 SHRINK_LISTS = [('tokens',), ('faults',)]
 EXPECTED_PROBES = ['ended_by_timer_only', 'reached_ready', 'reached_rejected', 'reached_protocol_error',
                    'reached_unresponsive', 'reached_closed', 'connect_fail',
